@@ -2,11 +2,11 @@
 from checks import engine as E
 from checks.engine import Failure
 
-WHAT = "model,hooks,classes,shapes"
+WHAT = "model,hooks,classes,shapes,order"
 LEVEL = "proof"
 RULE = ("regression corpus + repository test snippets + seeded random programs under pooled configurations; coq/Shapes.v (extracted) reads "
         "the expected operand list off the first argument of every hook call of the implementation's output and compares it with the "
-        "remaining arguments; non-trivial = the output has at least one hook call; distinct by source text")
+        "remaining arguments; coq/Order.v reports an identifier operand that is left in place before a captured operand with effects; non-trivial = the output has at least one hook call; distinct by source text")
 
 
 def cases(O):
@@ -19,6 +19,10 @@ def judge(ctx):
     out = []
     for s in sorted(set(ctx.m.get("out_shapes") or [])):
         out.append(Failure("hook arguments disagree with the operands of the wrapped operation: " + s, cls=s))
+    # an identifier left in place is read -- by the operation and by the hook -- after a later operand was evaluated: the
+    # hook is handed a later value than the one the original operation used (coq/Order.v)
+    if "kept-identifier-before-effect" in (ctx.m.get("out_order") or []):
+        out.append(Failure("an identifier operand left in place is followed by a captured operand with effects: it is read after them (a different value)"))
     return out
 
 
